@@ -30,6 +30,10 @@ def random_instruction(w: World, sim, vid: str, rng: random.Random):
         ["idle", "trip", "trip", "station", "station", "charge_s", "charge_s", "charge_b", "charge_b",
          "base", "repos", "reserve", "reserve", "oos", "pool"]
     )
+    if getattr(w, "queue_scenario", False):
+        # contention for the single plug type: arrivals (direct or through DispatchStation, which
+        # queues at a full station), departures, abandonments, a few excursions
+        kind = rng.choice(["station", "station", "station", "charge_s", "idle", "idle", "repos", "oos", "base"])
 
     def pick(ids, here=None, missing="x999"):
         r = rng.random()
@@ -42,6 +46,8 @@ def random_instruction(w: World, sim, vid: str, rng: random.Random):
     stations_here = [s.id for s in sim.stations.values() if s.geoid == v.geoid]
     bases_here = [b.id for b in sim.bases.values() if b.geoid == v.geoid]
     charger = rng.choice(sorted(CHARGERS.keys()))
+    if getattr(w, "queue_scenario", False) and rng.random() < 0.9:
+        charger = sorted(next(iter(sim.stations.values())).state.keys())[0]
     if kind == "idle":
         return I.IdleInstruction(vid)
     if kind == "trip":
